@@ -7,9 +7,13 @@ mod k_errtab;
 mod k_lex;
 mod k_mm;
 mod k_queue;
+mod k_tree;
 mod util;
 
 use std::io::{self, BufRead, Write};
+
+#[global_allocator]
+static GLOBAL: k_tree::Counting = k_tree::Counting;
 
 fn dispatch(kind: &str, args: &[&str]) -> String {
     match kind {
@@ -19,6 +23,7 @@ fn dispatch(kind: &str, args: &[&str]) -> String {
         "devtree" => k_dev::dump_tree(),
         "mm" => k_mm::run(args),
         "lex" => k_lex::run(args),
+        "tree" => k_tree::run(args),
         _ => format!("UNKNOWN-KIND {}", kind),
     }
 }
